@@ -32,6 +32,20 @@ Theorem C01_same_keyed_input_same_result_partial : forall sem,
 Proof. exact same_keyed_same_result. Qed.
 Print Assumptions C01_same_keyed_input_same_result_partial.
 
+(** why the keys are kept above: the key-less digest input can coincide for editions that behave differently
+    when names change kind (outside the edits the property lists; see DESIGN.md I.7) *)
+Theorem C01_contents_only_arbitrary_structure_refuted :
+  let sem := fun c d (env : nat -> res) => match env 1, env 2 with Val a, Val b => Val (c + a * 2 + b) | _, _ => Val c end in
+  let pin := {| s_kind := SMemento (Some 1); s_code := 7; s_defaults := 0; s_refs := [] |} in
+  let var := {| s_kind := SVar (Some 5); s_code := 0; s_defaults := 0; s_refs := [] |} in
+  let root := {| s_kind := SMemento None; s_code := 100; s_defaults := 0; s_refs := [1; 2] |} in
+  let p := table [(1, pin); (2, var); (3, root)] in
+  let q := table [(1, var); (2, pin); (3, root)] in
+  version_input p true (collect p 16 3) = version_input q true (collect q 16 3) /\
+  keyed_input p true (collect p 16 3) <> keyed_input q true (collect q 16 3) /\
+  eval sem 4 p 3 <> eval sem 4 q 3.
+Proof. exact contents_only_arbitrary_structure_refuted. Qed.
+
 (** the store across any history of editions: whenever equal versions imply equal behaviour,
     every call returns what un-memoized execution of the current edition returns *)
 Theorem C01_history_never_stale : forall sem,
